@@ -276,6 +276,8 @@ def transfers_of(op, r):
 def judge_transfer(r):
     if r["out"] == "Died":
         return None, None
+    if r["out"] == "Hang":
+        return "hang", "transfer_model did not return (%s)" % r.get("msg")
     if r["out"] == "Raised":
         return "raised:%s" % r.get("exc"), "transfer_model raised %s: %s" % (r.get("exc"), r.get("msg"))
     if not r.get("sig_ok"):
@@ -311,7 +313,7 @@ def _steps(j, fired):
     return 2 + ((j - 2) % (MODEL_LEN - 2))          # 1..MODEL_LEN-2 bytes written: a proper prefix
 
 
-OBS = {"Loaded": "OLoaded", "Recompiled": "ORecompiled", "Raised": "ORaised", "Died": "ODied"}
+OBS = {"Loaded": "OLoaded", "Recompiled": "ORecompiled", "Raised": "ORaised", "Died": "ODied", "Hang": "ORaised"}
 
 
 def encode(case, res):
@@ -391,7 +393,7 @@ LOCKSTEP = "ABABABAB"
 
 # where the caller stands when the writer's removal of the cache file happens: not started, after its first
 # existence/mtime test of the cache file, at os.walk (all tests done), at its open, after load_model returned
-GAP_POSITIONS = [None, "tested", "walk", "open", "loaded"]
+GAP_POSITIONS = [None, "tested", "walk", "open", "loaded", "saved"]
 
 
 def gap_schedule(pos):
@@ -469,6 +471,9 @@ def fixed_histories(rng, thorough):
         for pos in GAP_POSITIONS:
             out.append(mk(name, [["transfer", 0], ["gap", 0, gap_schedule(pos)], ["transfer", 0]]))
         out.append(mk(name, [["transfer", 0], ["cut", 2000], ["gap", 0, gap_schedule("tested")], ["transfer", 0]]))
+        # the caller has to recompile (no / stale / cut cache) and the writer's removal falls after its save_model
+        out.append(mk(name, [["gap", 0, gap_schedule("saved")], ["transfer", 0]]))
+        out.append(mk(name, [["transfer", 0], ["edit"], ["gap", 0, gap_schedule("saved")], ["transfer", 0]]))
         # a writer in the middle of its write and two readers
         for j in ([1, 2, 3000] if thorough else [1, 3000]):
             out.append(mk(name, [["transfer", 0], ["edit"], ["reader2", 0, j, LOCKSTEP], ["transfer", 0]]))
@@ -587,7 +592,9 @@ def minimise(ctx, case, idx):
     cands = []
     last = ops[-1]
     if last[0] == "gap":
+        cands.append([last])
         cands.append([["transfer", last[1]], last])
+        cands.append([["transfer", last[1]], ["edit"], last])
     if last[0] in ("two", "reader2"):
         o = last[1]
         cands.append([last])
@@ -715,7 +722,7 @@ def run(ctx):
     ph["H"] = round(time.time() - t0, 1)
     # (a) oracle
     n_transfers = 0
-    dist = {"Loaded": 0, "Recompiled": 0, "Raised": 0, "Died": 0}
+    dist = {"Loaded": 0, "Recompiled": 0, "Raised": 0, "Died": 0, "Hang": 0}
     opcount = {}
     pl_classes = {}
     nontrivial = set()
@@ -773,6 +780,13 @@ def run(ctx):
     # broken tie / probe but no failing history found above: direct search on the offsets the tables speak about
     # ---- torn files: two real saves with several write calls each, a third caller at a fixed point ------------
     torn_cases = [dict(TORN_SAME), dict(TORN_DIFF)]
+    if ctx.tier == "thorough":
+        # search for the model's refutations (C21_mixture_refuted / C21_torn_unaligned_refuted) on the real code:
+        # A has done `na` of its 6 write calls when B opens, B does `nb`, then A finishes; same and different options
+        for na, nb in [(1, 1), (2, 1), (3, 2), (5, 1), (5, 3), (5, 5), (4, 6), (6, 2)]:
+            sch = "AB" + "A" * (1 + na) + "B" * (1 + nb) + "AAAAAA"
+            torn_cases.append(dict(TORN_DIFF, schedule=sch))
+            torn_cases.append(dict(TORN_SAME, schedule=sch))
     torn_res = core.run_child(ctx, "c21", torn_cases, timeout=1200)
     ctx.notes["torn"] = [{"case": {k: c[k] for k in ("n", "oa", "ob", "schedule")}, "result": r} for c, r in zip(torn_cases, torn_res)]
     for c, r in zip(torn_cases, torn_res):
